@@ -1,0 +1,25 @@
+//go:build verif
+
+package manifest
+
+import (
+	"bufio"
+	"bytes"
+)
+
+// VerifEncodeEdit returns the on-disk record (length prefix + payload) of an edit.
+func VerifEncodeEdit(e Edit) ([]byte, error) {
+	var buf bytes.Buffer
+	if err := writeEdit(&buf, e); err != nil {
+		return nil, err
+	}
+	return buf.Bytes(), nil
+}
+
+// VerifDecodeEdit decodes an edit payload (without the length prefix).
+func VerifDecodeEdit(data []byte) (Edit, error) { return decodeEdit(data) }
+
+// VerifReadEdit reads one length-prefixed edit from data.
+func VerifReadEdit(data []byte) (Edit, error) {
+	return readEdit(bufio.NewReader(bytes.NewReader(data)))
+}
